@@ -5,7 +5,7 @@ import common, corr
 MODULE = 'OpenFecVerif.Props.C18'
 THEOREMS = ['Dense.C18_alloc', 'Dense.C18_get_set', 'Dense.C18_get_flip', 'Dense.C18_get_clear', 'Dense.C18_get_xorRows', 'Dense.C18_get_copy',
             'Dense.C18_get_copyrows', 'Dense.C18_rowIsEmpty_iff', 'Dense.C18_hweight32_naive', 'Dense.C18_hweight32', 'Dense.C18_popcount_3', 'Dense.C18_popcount64_words', 'Dense.C18_hw8table', 'Dense.C18_hweight32_table', 'Dense.C18_macro_getbit', 'Dense.C18_macro_index', 'Dense.C18_macro_setbit1', 'Dense.C18_macro_setbit0',
-            'Dense.C18_macro_words_for', 'Dense.C18_weights', 'Dense.C18_get_copycols', 'Dense.C18_to_dense', 'Dense.C18_to_sparse', 'Dense.C18_conversion_roundtrip',
+            'Dense.C18_macro_words_for', 'Dense.C18_weights', 'Dense.C18_row_weight_ignore_first', 'Dense.C18_get_copycols', 'Dense.C18_to_dense', 'Dense.C18_to_sparse', 'Dense.C18_conversion_roundtrip',
             'C03_success_is_rank_test', 'C03_solve_unique', 'C03_solve_sound', 'C03_solve_iff_full_rank']
 
 RULE = ('dense matrices of 1..70 x 1..70 (all word-boundary cases 31/32/33/63/64/65) driven through every exported operation (get, set, flip, clear, copy, '
